@@ -200,12 +200,24 @@ def run_real(case):
             raise ValueError(entry)
     except AssertionError:
         return {"out": "ctor-assert"}
+    # state carried across calls: the SAME collator object first collates `warm` other batches (longer sequences, other values,
+    # one more ctx key); the judged batch must not depend on them, and what was returned for them must not change afterwards
+    earlier = []
+    for j in range(case.get("warm", 0)):
+        try:
+            r = coll(make_batch(warm_variant(case, j)))
+            earlier.append((r, canon_value(r)))
+        except Exception:  # noqa
+            break
+    del log.events[:]
+    log.n_dc = 0
     with _PatchDC(log):
         try:
             res = coll(batch)
         except Exception as e:  # outcome to be compared; judged by the oracle
             return {"out": classify_exc(e), "trace": log.events, "_exc": f"{type(e).__name__}: {e}"[:200]}
     ans = {"out": "ok", "trace": log.events}
+    ans["_earlier_changed"] = any(canon_value(r) != snap for r, snap in earlier)
     if entry == "direct":
         # collate() on the raw batch: with contexts it returns (data, contexts) itself
         if case["rc"] and isinstance(res, tuple) and len(res) == 2 and isinstance(res[1], dict):
@@ -229,6 +241,22 @@ def run_real(case):
         ans["ctx"] = []
     ans["_raw"] = res
     return ans
+
+
+def warm_variant(case, j):
+    """an earlier batch for the same collator object: same layout, longer sequences with other values, one more ctx key"""
+    import copy
+    c = copy.deepcopy(case)
+    for name, col in c["table"].items():
+        for cell in col:
+            if "q" in cell and name != "fx":
+                cell["q"] = [v + 10 * (j + 1) for v in cell["q"]] + [7 + j] * (j + 2)
+            elif "z" in cell:
+                cell["z"] = cell["z"] + 1
+    names = [m for m in case["mode"].split(" ") if m != "index"]
+    if names:
+        c["ctxkeys"] = dict(case.get("ctxkeys", {}), **{names[-1]: 9})
+    return c
 
 
 def strip_private(d):
@@ -298,6 +326,9 @@ def oracle(case, real, samples):
         return None
     if out != "ok":
         return Failure(_key(case, "crash"), f"pipeline raises {real.get('_exc', out)} for {tag}", case, "a batch or an AssertionError", out)
+    if real.get("_earlier_changed"):
+        return Failure(_key(case, "earlier-result-rewritten"), f"collating this batch changed the (batch, ctx) the same collator object had returned "
+                       f"for an earlier batch, for {tag}", case, "earlier results untouched", "rewritten")
     k = len(samples[0]["items"])
     trace = real["trace"]
     # (batch, ctx) iff return_ctx
@@ -394,7 +425,8 @@ def flag_case(modes, rc, mode, idxs, entry="compose", keys=None, ctxkeys=None):
     n = max(idxs) + 1
     members = [{"kind": "probe", "mode": m, "key": (keys[i] if keys else None)} for i, m in enumerate(modes)]
     return {"op": "cl.run", "entry": entry, "members": members, "rc": rc, "mode": mode, "idxs": list(idxs),
-            "table": fixed_table(n, names), "ctxkeys": ctxkeys if ctxkeys is not None else {names[0]: 7}}
+            "table": fixed_table(n, names), "ctxkeys": ctxkeys if ctxkeys is not None else {names[0]: 7},
+            "warm": (len(modes) + len(idxs) + int(rc)) % 3}
 
 
 def exhaustive_flag_cases(max_len=4, batch_sizes=(1, 2, 3, 4), modes=FLAG_MODES):
@@ -450,7 +482,7 @@ def pad_case(rng, entry=None, rc=None, mode=None, bs=None):
         if rng.random() < 0.5:
             ck[nm] = rng.choice([1, 2, 5])
     return {"op": "cl.run", "entry": entry, "members": members, "rc": rc, "mode": mode, "idxs": idxs,
-            "table": seq_table(rng, n, names, equal=rng.random() < 0.15), "ctxkeys": ck}
+            "table": seq_table(rng, n, names, equal=rng.random() < 0.15), "ctxkeys": ck, "warm": rng.choice([0, 0, 1, 2])}
 
 
 def random_flag_case(rng):
